@@ -244,6 +244,14 @@ def f24_sparse_origin_json():
     return False
 
 
+def f25_select_eq_ignores_quantity():
+    from histogrammar.util import named
+
+    f = lambda x: x > 0   # noqa: E731
+    a, b = hg.Select(named("pos", f), hg.Count()), hg.Select(named("other", f), hg.Count())
+    return a == b and a.toJson() != b.toJson()
+
+
 if __name__ == "__main__":
     present = 0
     for name, fn in sorted((k, v) for k, v in globals().items() if k.startswith("f") and k[1:3].isdigit()):
